@@ -4,7 +4,7 @@
    Language: a string belongs to the PEP 440 version language iff it is the rendering of a well-formed spelling (parse tree). *)
 From Coq Require Import List Arith NArith Bool Lia.
 Import ListNotations.
-Require Import VParse VComplete VTop VTop2 VDec Py VMeaning SpecModel SpecParse SpecSound SpecContains SpecSem SpecLink VWf VKeyEq VAscii VGnfExists SpecComplete VCaseFold VGnfParsed.
+Require Import VParse VComplete VTop VTop2 VDec Py VMeaning SpecModel SpecParse SpecSound SpecContains SpecSem SpecLink VWf VKeyEq VAscii VGnfExists SpecComplete VCaseFold VGnfParsed VSpecAscii.
 Open Scope N_scope.
 
 Definition In_version_language (s : str) : Prop := exists sp, wf_spelling sp /\ render sp = s.
@@ -79,11 +79,21 @@ Theorem C12_scanner_commutes_with_case (f : char -> char) s : (forall c, lc (f c
 Proof. intros Hf. exact (parse_spelling_map f Hf s). Qed.
 Print Assumptions C12_scanner_commutes_with_case.
 
+(* (Theorems 1-2b are about the scanner model, which has no digit limit - finding D10: the real Version() rejects a component of more than 4300 digits.) *)
 (* 8. ASCII only: one character that is neither whitespace nor ASCII (e.g. U+017F, U+0131, U+0130, U+212A, an Arabic-Indic or full-width digit)
       anywhere in the string makes Version reject it *)
 Theorem C12_version_non_ascii_rejected s c : In c s -> is_ws c = false -> is_ascii c = false -> Version s = None.
 Proof. exact (non_ascii_rejected s c). Qed.
 Print Assumptions C12_version_non_ascii_rejected.
+
+(* 8b. ... and the same for Specifier, except after === (model of the isascii() check in Specifier.__init__): apart from its whitespace an accepted
+       specifier with any other operator consists of ASCII characters; a non-ASCII, non-blank character is accepted only in === text *)
+Theorem C12_specifier_non_ws_is_ascii s sp c : Specifier s = Some sp -> sp_op sp <> OArb -> In c s -> is_ws c = false -> is_ascii c = true.
+Proof. exact (specifier_non_ws_is_ascii s sp c). Qed.
+Print Assumptions C12_specifier_non_ws_is_ascii.
+Theorem C12_specifier_non_ascii_only_arbitrary s sp c : Specifier s = Some sp -> In c s -> is_ws c = false -> is_ascii c = false -> sp_op sp = OArb.
+Proof. exact (specifier_non_ascii_only_arbitrary s sp c). Qed.
+Print Assumptions C12_specifier_non_ascii_only_arbitrary.
 
 (* 9. the tree the scanner picks among the derivations of an accepted string is the greedy-normal-form one, and it is unique *)
 Theorem C12_version_unique_derivation s sp : parse_spelling s = Some sp ->
@@ -98,7 +108,9 @@ Definition c12_check : bool :=
   (match Version s, Version (map lc s) with Some _, Some _ => true | _, _ => false end) &&
   (match Version [49;46;48;383], Version [49;46;1633] with None, None => true | _, _ => false end) &&
   (match Specifier [61;61;49;46;48;46;42], Specifier [126;61;49;46;48] with Some _, Some _ => true | _, _ => false end) &&
-  (match Specifier [126;61;49], Specifier [62;61;49;46;48;43;97] with None, None => true | _, _ => false end).
+  (match Specifier [126;61;49], Specifier [62;61;49;46;48;43;97] with None, None => true | _, _ => false end) &&
+  (* "==1.0ſ" (U+017F would fold to 's' under IGNORECASE... here: "==1.0.poſt1") is rejected, "===1.0ſ" is accepted *)
+  (match Specifier [61;61;49;46;48;46;112;111;383;116;49], Specifier [61;61;61;49;46;48;383] with None, Some _ => true | _, _ => false end).
 Example C12_nonvacuous : c12_check = true.
 Proof. vm_compute. reflexivity. Qed.
 
